@@ -411,6 +411,20 @@ func (w *World) rulesV4Score(out *[]Obligation) {
 		}
 	}
 	w.rulesV4ScoreRest(m, modFn, add)
+	// when Score's structure was not recognised the rules other properties borrow
+	// (C09, C11) are recorded as not decided here; C04 reports the cause
+	for _, rule := range []string{"R04.round", "R04.dom"} {
+		have := false
+		for _, o := range *out {
+			if o.Rule == rule {
+				have = true
+			}
+		}
+		if !have {
+			*out = append(*out, Obligation{Rule: rule, Instance: "40.Score", Pos: p.pos(fd), OK: true, NonTrivial: false,
+				Detail: "not decided in this run: the structure of Score was not recognised (reported by the R04 rules of C04)"})
+		}
+	}
 }
 
 func init() {
